@@ -103,7 +103,7 @@ Print Assumptions C10_ceil_is_ceiling.
    bits, n * F (/ 8 for bit units) an integer a below 2^53: the result is exactly the float of
    value a (with the sign), and return_int returns exactly a.
    exact_hyps (Proofs/C10.v) is the conjunction of: (u, prefixes) a known system; sg empty, + or -;
-   ds non-empty ASCII digits of value n; pre empty or a prefix of the system; un in {b, bit, B};
+   ds non-empty Unicode decimal digits of value n > 0; pre empty or a prefix of the system; un in {b, bit, B};
    F = 1 or spec_base^spec_exp; repr53b F; n * F = a * (8 | 1); a < 2^53. *)
 Theorem C10_exact_when_representable : forall u prefixes sg ds pre un n F a,
   exact_hyps u prefixes sg ds pre un n F a ->
@@ -195,3 +195,24 @@ Theorem C10_qemu_translation_equiv :
   (forall root_cmd root_details, gen_size_details root_cmd root_details = size_details root_cmd root_details).
 Proof. exact (conj gen_canonicalize_equiv (conj gen_extract_bytes_equiv gen_size_details_equiv)). Qed.
 Print Assumptions C10_qemu_translation_equiv.
+
+(* ... and for a zero magnitude (any sign, any number of zero digits, any decimal-digit script) *)
+Theorem C10_exact_zero : forall u prefixes sg ds pre un,
+  In (u, prefixes) spec_systems -> (sg = [] \/ sg = [43%N] \/ sg = [45%N]) ->
+  digits ds = true -> ds <> [] -> dvalN (map asc ds) 0 = 0%N ->
+  (pre = [] \/ In pre prefixes) -> In un units3 ->
+  string_to_bytes (sg ++ ds ++ pre ++ un) u false = Ok (NFloat (S754_zero (beq sg [45%N]))) /\
+  string_to_bytes (sg ++ ds ++ pre ++ un) u true = Ok (NInt 0).
+Proof. exact exact_zero. Qed.
+Print Assumptions C10_exact_zero.
+
+(* oslo_utils.units: every constant whose name is a key of the exponent table is 1024^e (names ending
+   in i) or 1000^e, and the 20 SI / IEC constants k M .. Q, Ki .. Qi are all there with those values —
+   so "base 1024 for IEC, 1000 for SI" of string_to_bytes and the constants of units.py agree *)
+Theorem C10_units_agree :
+  (forall nm v e, In (nm, v) units_constants -> lookup nm unit_prefix_exponent = Some e ->
+                  v = (if ends_with_i nm then 1024 else 1000) ^ e) /\
+  (forall p, In p si_prefixes -> lookup p units_constants = Some (1000 ^ spec_exp p)) /\
+  (forall p, In p iec_prefixes -> ends_with_i p = true -> lookup p units_constants = Some (1024 ^ spec_exp p)).
+Proof. exact units_agree. Qed.
+Print Assumptions C10_units_agree.
